@@ -1,12 +1,13 @@
 """Run the real LineageRunner and return a canonical dump of everything the public API shows.
 Projection only - no expectations live here.  Import from worker processes (cwd should be a scratch dir)."""
+from harness import REPO as _REPO
 import hashlib
 import re
 import sys
 import warnings
 
-if "/repo" not in sys.path:
-    sys.path.insert(0, "/repo")
+if _REPO not in sys.path:
+    sys.path.insert(0, _REPO)
 
 _SQ = re.compile(r"subquery_-?\d+")
 
